@@ -1,8 +1,145 @@
 package main
 
-import "bufio"
+import (
+	"bufio"
+	"fmt"
+	"sort"
+	"strconv"
+	"strings"
 
-// genericCommand handles the C15 type-level commands; returns false for an unknown command.
+	"verifharness/internal/tyspec"
+
+	"github.com/DDP-Projekt/Kompilierer/src/ddptypes"
+)
+
+// Type-level generic commands (model: coq/Types/Generic.v).  Instantiated Kombinationen are numbered
+// 1000, 1001, ... in the order in which they are first returned to the harness and can be used in later
+// specs as S#<number>.
+//
+//	GR                      reset (new scenario: no generic Kombinationen, no bindings)
+//	GS <gid> <G-spec>...    declare generic Kombination <gid> with these type parameters (one field each)
+//	GI <gid> <spec>...      GetInstantiatedStructType            -> "GI <S#n | nil>"
+//	GC                      clear the bindings
+//	GB <G-spec> <spec>      pre-bind a type parameter
+//	GU <arg> <param>        UnifyGenericType(arg, param, σ)       -> "GU <spec | nil | panic> <bindings>"
+//	GT <spec>               GetInstantiatedType(spec, σ)          -> "GT <spec | nil>"
+var (
+	gstructs = map[int]*ddptypes.GenericStructType{}
+	bindings = map[string]ddptypes.Type{}
+	seen     = map[*ddptypes.StructType]int{}
+)
+
+func register(s *ddptypes.StructType) {
+	if _, ok := seen[s]; !ok {
+		seen[s] = 1000 + len(seen)
+		env.Register("S#"+strconv.Itoa(seen[s]), s)
+	}
+}
+
+func showBindings() string {
+	names := make([]string, 0, len(bindings))
+	for k := range bindings {
+		names = append(names, k)
+	}
+	sort.Strings(names)
+	var sb strings.Builder
+	for _, k := range names {
+		fmt.Fprintf(&sb, " G%s=%s", k[strings.IndexByte(k, '#'):], env.Show(bindings[k]))
+	}
+	return sb.String()
+}
+
+func mustParse(s string) ddptypes.Type {
+	t, err := env.Parse(s)
+	if err != nil {
+		panic(fmt.Sprintf("bad spec %q: %v", s, err))
+	}
+	return t
+}
+
+func registerDeep(t ddptypes.Type) {
+	switch v := t.(type) {
+	case ddptypes.ListType:
+		registerDeep(v.ElementType)
+	case *ddptypes.StructType:
+		if g, _ := ddptypes.InstantiatedFrom(v); g != nil { // plain Kombinationen keep their spec id
+			register(v)
+		}
+	}
+}
+
 func genericCommand(fs []string, out *bufio.Writer) bool {
-	return false
+	switch fs[0] {
+	case "GR":
+		gstructs = map[int]*ddptypes.GenericStructType{}
+		bindings = map[string]ddptypes.Type{}
+		seen = map[*ddptypes.StructType]int{}
+		env = tyspec.New()
+	case "GS":
+		gid, _ := strconv.Atoi(fs[1])
+		g := &ddptypes.GenericStructType{StructType: ddptypes.StructType{Name: "g" + fs[1], GramGender: ddptypes.FEMININ}}
+		for i, ps := range fs[2:] {
+			gt := mustParse(ps).(ddptypes.GenericType)
+			g.GenericTypes = append(g.GenericTypes, gt)
+			g.StructType.Fields = append(g.StructType.Fields, ddptypes.StructField{Name: "f" + strconv.Itoa(i), Type: gt},
+				ddptypes.StructField{Name: "l" + strconv.Itoa(i), Type: ddptypes.ListType{ElementType: gt}})
+		}
+		gstructs[gid] = g
+	case "GI":
+		gid, _ := strconv.Atoi(fs[1])
+		args := make([]ddptypes.Type, 0, len(fs)-2)
+		for _, s := range fs[2:] {
+			args = append(args, mustParse(s))
+		}
+		r := ddptypes.GetInstantiatedStructType(gstructs[gid], args)
+		if r == nil {
+			fmt.Fprintln(out, "GI nil")
+		} else {
+			register(r)
+			fmt.Fprintln(out, "GI", env.Show(r))
+		}
+	case "GC":
+		bindings = map[string]ddptypes.Type{}
+	case "GB":
+		bindings[mustParse(fs[1]).(ddptypes.GenericType).Name] = mustParse(fs[2])
+	case "GU":
+		arg, param := mustParse(fs[1]), mustParse(fs[2])
+		res := ""
+		func() {
+			defer func() {
+				if r := recover(); r != nil {
+					res = "panic"
+				}
+			}()
+			r := ddptypes.UnifyGenericType(arg, ddptypes.ParameterType{Type: param}, bindings)
+			if r == nil {
+				res = "nil"
+			} else {
+				registerDeep(r)
+				res = env.Show(r)
+			}
+		}()
+		fmt.Fprintf(out, "GU %s%s\n", res, showBindings())
+	case "GT":
+		t := mustParse(fs[1])
+		res := ""
+		func() {
+			defer func() {
+				if r := recover(); r != nil {
+					res = "panic"
+				}
+			}()
+			r := ddptypes.GetInstantiatedType(t, bindings)
+			if r == nil {
+				res = "nil"
+			} else {
+				registerDeep(r)
+				res = env.Show(r)
+			}
+		}()
+		fmt.Fprintln(out, "GT", res)
+	default:
+		return false
+	}
+	return true
 }
